@@ -574,6 +574,12 @@ func TestCheck(t *testing.T) {
 			os.Exit(3)
 		}
 	}
+	if os.Getenv("C16_ONLY") == "member" { // development aid: the group-membership family alone
+		info := runMember(r, "")
+		fmt.Printf("C16 member: cells=%v shapes=%v installed=%v\n", info["cells_total"], info["shapes"], info["installed_by_route"])
+		r.Finish(map[string]any{"states": 1, "transitions": 1, "traces_validated_against_impl": 1, "group_membership": info}, nil)
+		return
+	}
 	cap := vk.Pick(r, 1500, 200000)
 	en := &engine{r: r, w: w, comp: map[string]*compRow{}, vio: map[string]int{}, allVio: map[string]int{}, states: vk.NewSet()}
 
@@ -583,6 +589,9 @@ func TestCheck(t *testing.T) {
 
 	// -- manifests that change: update histories, forged groups, natives appearing with hardforks
 	updInfo := runUpd(r)
+
+	// -- how a contract becomes a member of a group: signatures of every entry x deploy/update routes
+	memInfo := runMember(r, "")
 
 	// -- a subset through real blocks: the compiled contract's operations, all flag sets
 	btxs, bhalt, bagree := flagsInBlocks(r, nil)
@@ -697,7 +706,7 @@ func TestCheck(t *testing.T) {
 		return 0
 	}
 	// executions of the extension families (each one runs the real code)
-	extRuns := asInt(verifInfo["cases"]) + asInt(verifInfo["runs_on_VerifyWitness_VerifyTx"]) + asInt(verifInfo["cases_in_blocks"]) + asInt(badInfo["cases"]) + asInt(updInfo["cells_total"])
+	extRuns := asInt(verifInfo["cases"]) + asInt(verifInfo["runs_on_VerifyWitness_VerifyTx"]) + asInt(verifInfo["cases_in_blocks"]) + asInt(badInfo["cases"]) + asInt(updInfo["cells_total"]) + asInt(memInfo["cells_total"])
 	cov := map[string]any{
 		"states":                                      en.states.Len() + len(ccs) + int(ps.pure+ps.namesPure),
 		"transitions":                                 int(en.execs.Get()) + chainDone + int(ps.real+ps.block+ps.token+ps.entry+ps.names) + btxs + extRuns,
@@ -728,6 +737,10 @@ func TestCheck(t *testing.T) {
 		"chain_cases_halted":                          chainDone - int(chainFault.Get()),
 		"permission":                                  permInfo,
 		"update_histories":                            updInfo,
+		"group_membership":                            memInfo,
+		"group_membership_cells":                      asInt(memInfo["cells_total"]),
+		"group_membership_shapes":                     asInt(memInfo["shapes"]),
+		"group_membership_pure_reverse_cells":         asInt(memInfo["pure_reverse_cells"]),
 		"verification_contexts":                       verifInfo,
 		"invalid_flag_values":                         badInfo,
 		"universal_shrink_executions_with_growth":     grewN,
@@ -1119,6 +1132,10 @@ func replay(r *vk.Run) {
 		var uc updCase
 		_ = r.ReadReplay(&uc)
 		replayUpd(r, uc)
+	case d.Sub == "member":
+		var mc memCase
+		_ = r.ReadReplay(&mc)
+		replayMember(r, mc)
 	case d.Sub == "universal-shrink":
 		var gc grewCase
 		_ = r.ReadReplay(&gc)
